@@ -21,12 +21,19 @@ META = dict(
         "titles within one metabook are distinct, so that swapping two items or renaming one is a real difference",
         "the simplejson/json parser itself is trusted for re-spelling (spellings are produced by the stdlib encoder)",
     ],
-    floors={"nontrivial": (0.25, None), "mut:order": (0.05, None)},
+    floors={"nontrivial": (0.25, None), "mut:order": (0.05, None), "plain-nested-dict": (0.20, None)},
 )
 
 text = st.text(st.characters(blacklist_categories=("Cs",)), max_size=12)
 title = st.one_of(st.sampled_from(["Physik", "Mathematik", "Äpfel & Birnen", "日本", "a/b", "x\"y", "C++"]), text)
 opt = lambda s: st.one_of(st.none(), s)  # noqa
+
+
+# type-less JSON objects (e.g. the "settings" object real requests carry): their key order must not matter either
+plain_dict = st.dictionaries(st.sampled_from(["papersize", "toc", "columns", "b", "a", "zz"]),
+                             st.one_of(st.integers(0, 9), st.sampled_from(["a4", "yes"]),
+                                       st.dictionaries(st.sampled_from(["x", "y", "k"]), st.integers(0, 3), min_size=2)),
+                             min_size=2, max_size=4)
 
 
 @st.composite
@@ -41,7 +48,7 @@ def article(draw, n):
     if draw(st.integers(0, 3)) == 0:
         d["content_type"] = draw(st.sampled_from(["text/x-wiki", "text/html"]))
     if draw(st.integers(0, 3)) == 0:
-        d["x_custom"] = draw(st.one_of(text, st.integers(), st.lists(st.integers(), max_size=3), st.booleans()))
+        d["x_custom"] = draw(st.one_of(text, st.integers(), st.lists(st.integers(), max_size=3), st.booleans(), plain_dict))
     return d
 
 
@@ -70,6 +77,8 @@ def metabook(draw):
     for k in ("title", "subtitle", "editor", "summary", "description", "sort_as", "cover_image"):
         if draw(st.integers(0, 3)) == 0:
             mb[k] = draw(title)
+    if draw(st.integers(0, 2)) == 0:
+        mb["settings"] = draw(plain_dict)
     if draw(st.integers(0, 3)) == 0:
         mb["licenses"] = [{"type": "license", "title": draw(title), "wikitext": draw(text)}
                           for _ in range(draw(st.integers(0, 2)))]
@@ -313,6 +322,8 @@ def run_shard(ctx):
         labels = ["mut:" + case["mutation"][0], "items:%d" % min(len(mb["items"]), 4)]
         if nt:
             labels.append("nontrivial")
+        if "settings" in mb or any(isinstance(a[2].get("x_custom"), dict) for a in arts):
+            labels.append("plain-nested-dict")
         if any(not c.get("items") for c in chapters):
             labels.append("empty-chapter")
         if any(ord(ch) > 127 for ch in case["spell_a"]):
